@@ -697,6 +697,31 @@ func interpretContainerMethod(info *types.Info, fd *ast.FuncDecl, methods map[st
 					undecided = append(undecided, "unrecognised loop touching the element list")
 				}
 			case *ast.RangeStmt:
+				// for off, ele := range this.properties[A:] { ele.myIdx = A + off }   — re-indexes [A, len)
+				if sl, ok := s.X.(*ast.SliceExpr); ok && isProps(info, sl.X) && sl.Low != nil && sl.High == nil && s.Key != nil && s.Value != nil && len(s.Body.List) == 1 {
+					k, _ := s.Key.(*ast.Ident)
+					v, _ := s.Value.(*ast.Ident)
+					start := xs(sl.Low)
+					okBody := false
+					if as, ok := s.Body.List[0].(*ast.AssignStmt); ok && len(as.Lhs) == 1 && len(as.Rhs) == 1 && k != nil && v != nil {
+						if sel, ok := as.Lhs[0].(*ast.SelectorExpr); ok && isIdentNamed(sel.X, v.Name) && sel.Sel.Name == "myIdx" {
+							if be, ok := as.Rhs[0].(*ast.BinaryExpr); ok && be.Op == token.ADD {
+								if (xs(be.X) == start && isIdentNamed(be.Y, k.Name)) || (xs(be.Y) == start && isIdentNamed(be.X, k.Name)) {
+									okBody = true
+								}
+							}
+						}
+					}
+					if okBody {
+						for f := range d.from {
+							if f == start {
+								delete(d.from, f)
+							}
+						}
+						delete(d.points, start)
+						continue
+					}
+				}
 				// for idx, ele := range this.properties { ele.parent = this; ele.myIdx = idx }
 				if isProps(info, s.X) && s.Key != nil && s.Value != nil {
 					k, _ := s.Key.(*ast.Ident)
